@@ -185,8 +185,8 @@ pub fn run(ctx: &Ctx) -> Report {
     rep.rule = "cases = (Rust integer type in {u8..i64, usize, isize, Value::Int, Value::UInt}, column type in {TINY, SHORT, YEAR, INT24, LONG, LONGLONG} x {signed, unsigned}, value); values exhaustive for 8- and 16-bit types, {bounds, 0, +-1, 2^k, 2^k+-1, random} for wider ones; outcome classes accepted-exact / refused-Err / refused-panic (loud); a class is a (Rust type, column type, signedness, outcome) tuple; non-trivial = the encoder was called and its bytes decoded by wire width and signedness".into();
     // work items: (source, column index, unsigned)
     let items: Vec<(Src, usize, bool)> = SRCS.iter().flat_map(|&s| (0..6).flat_map(move |c| [false, true].into_iter().map(move |u| (s, c, u)))).collect();
-    // Miri: a seeded sample of 16 (type, column) pairs with a thinned value list
-    let items: Vec<(Src, usize, bool)> = if ctx.miri { items.into_iter().enumerate().filter(|(k, _)| (k + ctx.seed as usize) % 9 == 0).map(|(_, x)| x).collect() } else { items };
+    // Miri: a seeded sample of 48 (type, column) pairs with a thinned value list
+    let items: Vec<(Src, usize, bool)> = if ctx.miri { items.into_iter().enumerate().filter(|(k, _)| (k + ctx.seed as usize) % 3 == 0).map(|(_, x)| x).collect() } else { items };
     let r = par_cases(ctx, "C15", "matrix", items.len() as u64, |rng, i, rep| {
         let (s, ci, unsigned) = items[i as usize];
         let (lo, hi) = src_range(s);
@@ -201,7 +201,7 @@ pub fn run(ctx: &Ctx) -> Report {
             rep.counters.inc("exhaustive_type_column_pairs");
         } else {
             for (k, v) in interesting(lo, hi).into_iter().enumerate() {
-                if ctx.miri && k % 8 != 0 {
+                if ctx.miri && k % 3 != 0 {
                     continue;
                 }
                 eval(s, v, ci, unsigned, rep);
